@@ -59,7 +59,7 @@ void h_unwrap(void)
 {
   VP_HAVOC_SOFTHSM(); __CPROVER_havoc_object(vp_in); __CPROVER_havoc_object(vp_in_t3); __CPROVER_havoc_object(vp_in_keybytes);
   vp_call_C_UnwrapKey();
-  VP_COVER(vp_rv == CKR_OK && t_class() == CKO_SECRET_KEY && t_private() && SES(MECH) == CKM_AES_KEY_WRAP);
+  VP_COVER(vp_rv == CKR_OK && t_class() == CKO_SECRET_KEY && t_private() && SES(MECH) == CKM_RSA_PKCS);
   VP_COVER(vp_rv == CKR_OK && t_class() == CKO_PRIVATE_KEY && SES(MECH) == CKM_AES_CBC_PAD);
   VP_COVER(vp_rv == CKR_FUNCTION_FAILED && CREATED && OUT(setpk_n) == 1);
   VP_COVER(vp_rv == CKR_USER_NOT_LOGGED_IN && K0 < VP_NOBJ);
